@@ -101,9 +101,16 @@
                   (C12_duplicate_total) but drops the copy's model record and leaves its root with the parent link `PModel c`
                   (agent-c13's class dup_failed): PMB breaks; `op_wf` would have to exclude those garbage nodes (no handle to
                   them exists in the library) - open.  C12_histories3_nonvacuous: a history with a duplicate on the real tables.
-     OpLoad       the parser is total (C02_load_total); install / merge are proved total by agent-c09 for Good masters only
-                  (Tree/LoadRefineIndex.v); missing: H12 for the loaded tree (checked types, names, values of the parser's
-                  output: RE / RV / RX / CharsLeaf / OriginsRef for install_tree) and totality of the merge for arbitrary H2 worlds. *)
+     OpLoad       REJECTED loads are covered steps (fifth package, Tree/NoPanicProofsOp4Hist.v): C12_load_front_total [F]: load_buffer
+                  of ANY byte string into an existing model is either rejected without a panic (file name taken, or the parser
+                  raises - the parser never panics or loops: C02_load_total composed with the model lookup and the name check) and
+                  then returns Err leaving the world untouched, or it is exactly load_parsed on the parser's output;
+                  C12_no_panic4_histories [F]: histories over EVERY constructor of op2 run to their end when each call is
+                  op4_wfh (as op3_wfh; a load: byte string, rejected); C12_histories4_nonvacuous.  Still PENDING: the load whose
+                  buffer the parser ACCEPTS (load_parsed: install, overlap check, merge): missing H12 / FI / FilesOwned for the
+                  installed tree (checked types, names, values of the parser's output) and totality of the merge for arbitrary
+                  worlds (agent-c09: Good masters only, Tree/LoadRefineIndex.v).
+   *)
 From AV Require Import Base.Bytes Base.Outcome Hash.HashModel Hash.HashRealEnum Hash.HashRealElement Spec.SpecOps Spec.SpecReal Xml.TablesOk.
 From AV Require Import Tree.Heap Tree.Ops Tree.Script Tree.Inv Tree.NoPanic.
 From AV Require Import Tree.NoPanicProofsBase Tree.NoPanicProofsDepth Tree.NoPanicProofsCopy2 Tree.NoPanicProofsMain Tree.NoPanicReal.
@@ -112,7 +119,7 @@ From AV Require Import Hash.HashRealAttr Tree.Script2 Tree.SortProofsHeap Tree.S
 From AV Require Import Tree.Compat Tree.Serialize Tree.NoPanicProofsFiles Tree.NoPanicProofsSerFile Tree.NoPanicProofsCompat
   Tree.NoPanicProofsCompatEx Tree.NoPanicProofsOp2Hist Tree.NoPanicProofsOp2HistReal Tree.NoPanicProofsOp2HistEx.
 From AV Require Tree.Copy Tree.Files Tree.NoPanicProofsDup Tree.NoPanicProofsDupHist Tree.NoPanicProofsOp3Hist Tree.NoPanicProofsOp3HistReal
-  Tree.NoPanicProofsOp3HistEx.
+  Tree.NoPanicProofsOp3HistEx Tree.Load Xml.Parser Tree.NoPanicProofsOp4Hist Tree.NoPanicProofsOp4HistReal.
 Open Scope N_scope.
 
 Theorem C12_no_panic_partial :
@@ -457,3 +464,44 @@ Theorem C12_histories3_nonvacuous :
                NoPanicProofsOp3HistEx.ex3_hist empty_world = Val w' /\
              List.length (w_models w') = 2%nat /\ option_map n_parent (w_nodes w' 6) = Some (PModel 1).
 Proof. exact (conj NoPanicProofsOp3HistEx.ex3_wf NoPanicProofsOp3HistEx.ex3_runs). Qed.
+
+(* ---- load_buffer: the front of the call, and rejected loads as history steps ---- *)
+Theorem C12_load_front_total :
+  forall (check_fn : N -> list N -> res bool) (float_parse : list N -> option N) (LATEST name_definition_ref : N),
+    (forall fn s, exists b, check_fn fn s = Val b) ->
+    forall w m buffer filename strict,
+      bytes_ok buffer = true -> m < N.of_nat (List.length (w_models w)) ->
+      NoPanicProofsOp4Hist.load_rejected RT tab_element tab_attr tab_enum check_fn float_parse w m buffer filename strict \/
+      exists x root st, nth_opt (w_models w) (N.to_nat m) = Some x /\ NoPanicProofsOp4Hist.name_taken_in w x filename = false /\
+        Parser.load strict RT tab_element tab_attr tab_enum check_fn float_parse buffer = Val (Parser.Ret root st) /\
+        Load.m_load_buffer RT tab_element tab_attr tab_enum check_fn float_parse LATEST name_definition_ref m buffer filename strict w =
+          (do f <- Load.load_parsed RT LATEST name_definition_ref m filename root st; wret (f, rev (Parser.p_warnings st)))%W w.
+Proof. exact NoPanicProofsOp4HistReal.load_front_total_real. Qed.
+
+Theorem C12_load_rejected_returns :
+  forall (T : tables) (tab_el tab_at tab_en : nametab) (check_fn : N -> list N -> res bool) (float_parse : list N -> option N)
+         (LATEST name_definition_ref : N) w m buffer filename strict,
+    NoPanicProofsOp4Hist.load_rejected T tab_el tab_at tab_en check_fn float_parse w m buffer filename strict ->
+    exists e, Load.m_load_buffer T tab_el tab_at tab_en check_fn float_parse LATEST name_definition_ref m buffer filename strict w = Val (ER e, w).
+Proof. exact NoPanicProofsOp4Hist.load_rejected_returns. Qed.
+
+Theorem C12_no_panic4_histories :
+  forall (check_fn : N -> list N -> res bool) (float_parse : list N -> option N) (fmt : N -> list N)
+         (LATEST name_index name_definition_ref attr_schema_location : N) (root_attrs : list (N * cdata)),
+    (forall fn s, exists b, check_fn fn s = Val b) ->
+    (forall a, In a root_attrs -> to_str tab_attr (fst a) <> None /\ cdata_named tab_enum (snd a)) ->
+    forall l,
+      NoPanicProofsOp4Hist.wf_ops4 RT tab_element tab_attr tab_enum check_fn float_parse fmt LATEST name_index name_definition_ref
+              attr_schema_location root_attrs l empty_world ->
+      exists w', run_ops2F RT tab_element tab_attr tab_enum check_fn float_parse fmt LATEST name_index name_definition_ref
+                           attr_schema_location root_attrs l empty_world = Val w'.
+Proof. exact NoPanicProofsOp4HistReal.no_panic4_histories_real. Qed.
+
+(* [F] non-vacuity: a load of a broken document, a load under a taken file name, then ordinary calls *)
+Theorem C12_histories4_nonvacuous :
+  NoPanicProofsOp4Hist.wf_ops4 RT tab_element tab_attr tab_enum nv_check (fun _ => None) ex_fmt 1048576 3516 6311 78 []
+    NoPanicProofsOp4HistReal.ex4_hist empty_world /\
+  exists w', run_ops2F RT tab_element tab_attr tab_enum nv_check (fun _ => None) ex_fmt 1048576 3516 6311 78 []
+               NoPanicProofsOp4HistReal.ex4_hist empty_world = Val w' /\
+             List.length (w_files w') = 1%nat /\ w_next w' = 2.
+Proof. exact (conj NoPanicProofsOp4HistReal.ex4_wf NoPanicProofsOp4HistReal.ex4_runs). Qed.
